@@ -4,6 +4,8 @@ package c20
 
 import (
 	"os"
+	"sync"
+	"sync/atomic"
 	"testing"
 
 	"github.com/cloudflare/circl/abe/cpabe/tkn20"
@@ -134,6 +136,198 @@ func TestVerifABEObjectReuse(t *testing.T) {
 				lib.Violation("C20:key-changed-by-decrypting:AttributeKey.Decrypt", rmon, lib.D("attrs", sets[ki].String(), "pass", pass))
 				encs[ki] = now
 			}
+		}
+	}
+}
+
+// TestVerifABEOddValues: attribute values a policy text can never name - the
+// empty string, blanks, a trailing blank, non-ASCII look-alikes, a very long
+// value - and the empty label.  Such an attribute is PRESENT with a value
+// different from every policy value: it satisfies no positive leaf on its
+// label and every negated one.  Decrypt, CouldDecrypt and Satisfaction must
+// follow the stated semantics for them as for ordinary values.
+func TestVerifABEOddValues(t *testing.T) {
+	const omon = "TestVerifABEOddValues"
+	lib.Mandatory("odd-values:cases", "odd-values:empty-string-value")
+	var msk tkn20.SystemSecretKey
+	var pk tkn20.PublicKey
+	dirp := repoRoot() + "/abe/cpabe/tkn20/testdata/"
+	rd := func(n string) []byte {
+		b, err := os.ReadFile(dirp + n)
+		if err != nil {
+			t.Fatalf("harness: %v", err)
+		}
+		return b
+	}
+	if err := msk.UnmarshalBinary(rd("secretKey")); err != nil {
+		t.Fatalf("harness: golden secretKey: %v", err)
+	}
+	if err := pk.UnmarshalBinary(rd("publicKey")); err != nil {
+		t.Fatalf("harness: golden publicKey: %v", err)
+	}
+	leaf := func(l, v string) *abepol.Node { return &abepol.Node{K: abepol.Leaf, Label: l, Value: v} }
+	and := func(a, b *abepol.Node) *abepol.Node { return &abepol.Node{K: abepol.And, L: a, R: b} }
+	or := func(a, b *abepol.Node) *abepol.Node { return &abepol.Node{K: abepol.Or, L: a, R: b} }
+	not := func(a *abepol.Node) *abepol.Node { return &abepol.Node{K: abepol.Not, L: a} }
+	pols := []struct {
+		text string
+		node *abepol.Node
+	}{
+		{"not a:1", not(leaf("a", "1"))},
+		{"a:1", leaf("a", "1")},
+		{"b:1 and not a:1", and(leaf("b", "1"), not(leaf("a", "1")))},
+		{"not (a:1 or b:2)", not(or(leaf("a", "1"), leaf("b", "2")))},
+		{"a:1 or not a:2", or(leaf("a", "1"), not(leaf("a", "2")))},
+		{"tier_2:free_plan or not tier_2:x", or(leaf("tier_2", "free_plan"), not(leaf("tier_2", "x")))},
+	}
+	long := make([]byte, 300)
+	for i := range long {
+		long[i] = 'v'
+	}
+	sets := []abepol.Assign{
+		{"a": ""}, {"a": "", "b": "1"}, {"a": "", "b": ""}, {"a": " "}, {"a": "1 "}, {"a": " 1"}, {"a": "１"}, {"a": string(long)},
+		{"a": "1", "b": ""}, {"": "1"}, {"a": "1"}, {"a": "2", "b": "1"}, {"tier_2": ""}, {"tier_2": "free_plan"}, {},
+	}
+	cts := make([][]byte, len(pols))
+	for i, p := range pols {
+		var pol tkn20.Policy
+		if err := pol.FromString(p.text); err != nil {
+			lib.Violation("C20:parse-error:Policy.FromString", omon, lib.D("policy", p.text, "err", err))
+			return
+		}
+		ct, err := pk.Encrypt(lib.NewRng("c20/odd/enc", i), pol, []byte("odd"))
+		if err != nil {
+			lib.Violation("C20:encrypt-error:PublicKey.Encrypt", omon, lib.D("policy", p.text, "err", err))
+			return
+		}
+		cts[i] = ct
+	}
+	lib.Par(len(sets), func(si int) {
+		a := sets[si]
+		m := map[string]string{}
+		empty := false
+		for k, v := range a {
+			m[k] = v
+			if v == "" {
+				empty = true
+			}
+		}
+		var at tkn20.Attributes
+		at.FromMap(m)
+		key, err := msk.KeyGen(lib.NewRng("c20/odd/keygen", si), at)
+		if err != nil {
+			lib.Violation("C20:keygen-error:SystemSecretKey.KeyGen", omon, lib.D("attrs", a.String(), "err", err))
+			return
+		}
+		for pi, p := range pols {
+			exp := abepol.Eval(p.node, a)
+			lib.CaseS("odd-values", p.text, a.String())
+			lib.Count("odd-values:cases")
+			if empty {
+				lib.Count("odd-values:empty-string-value")
+			}
+			var pol tkn20.Policy
+			_ = pol.FromString(p.text)
+			if got := pol.Satisfaction(at); got != exp {
+				lib.Violation("C20:"+dir(exp)+":Policy.Satisfaction:odd-attribute-value", omon, lib.D("policy", p.text, "attrs", a.String(), "expected", exp, "observed", got))
+			}
+			if got := at.CouldDecrypt(cts[pi]); got != exp {
+				lib.Violation("C20:"+dir(exp)+":Attributes.CouldDecrypt:odd-attribute-value", omon, lib.D("policy", p.text, "attrs", a.String(), "expected", exp, "observed", got))
+			}
+			pt, err, pn := tryDecrypt(&key, cts[pi], "tkn20.AttributeKey.Decrypt:odd-values")
+			if pn != nil {
+				lib.Violation("C20:panic:AttributeKey.Decrypt:odd-attribute-value", omon, lib.D("policy", p.text, "attrs", a.String(), "panic", pn.Value))
+				continue
+			}
+			if (err == nil) != exp || (exp && !lib.Eq(pt, []byte("odd"))) {
+				lib.Violation("C20:"+dir(exp)+":AttributeKey.Decrypt:odd-attribute-value", omon, lib.D("policy", p.text, "attrs", a.String(), "expected", exp, "err", err))
+			}
+		}
+	})
+}
+
+// TestVerifABEConcurrent: one PublicKey, one Policy object and one
+// AttributeKey are used by 8 goroutines at once (Encrypt with the shared
+// policy, then Decrypt / CouldDecrypt with the shared key).  Every ciphertext
+// must decrypt under the satisfying key to its own message and be refused by
+// the non-satisfying one - exactly as when produced one after the other.
+func TestVerifABEConcurrent(t *testing.T) {
+	const cmon = "TestVerifABEConcurrent"
+	lib.Mandatory("concurrent:encryptions", "concurrent:decryptions")
+	var msk tkn20.SystemSecretKey
+	var pk tkn20.PublicKey
+	dirp := repoRoot() + "/abe/cpabe/tkn20/testdata/"
+	rd := func(n string) []byte {
+		b, err := os.ReadFile(dirp + n)
+		if err != nil {
+			t.Fatalf("harness: %v", err)
+		}
+		return b
+	}
+	if err := msk.UnmarshalBinary(rd("secretKey")); err != nil {
+		t.Fatalf("harness: golden secretKey: %v", err)
+	}
+	if err := pk.UnmarshalBinary(rd("publicKey")); err != nil {
+		t.Fatalf("harness: golden publicKey: %v", err)
+	}
+	for pi, ptxt := range []string{"(a:1 or b:2) and not c:3", "a:1"} {
+		var pol tkn20.Policy
+		if err := pol.FromString(ptxt); err != nil {
+			t.Fatalf("harness: %v", err)
+		}
+		var good, bad tkn20.Attributes
+		good.FromMap(map[string]string{"a": "1", "c": "4"})
+		bad.FromMap(map[string]string{"a": "2", "b": "1", "c": "4"})
+		kGood, err1 := msk.KeyGen(lib.NewRng("c20/conc/k", 2*pi), good)
+		kBad, err2 := msk.KeyGen(lib.NewRng("c20/conc/k", 2*pi+1), bad)
+		if err1 != nil || err2 != nil {
+			t.Fatalf("harness: keygen %v %v", err1, err2)
+		}
+		const workers, per = 8, 3
+		cts := make([][]byte, workers*per)
+		errs := make([]error, workers*per)
+		for round := 0; round < lib.Scale(2, 10); round++ {
+			var wg sync.WaitGroup
+			for w := 0; w < workers; w++ {
+				w := w
+				wg.Add(1)
+				go func() {
+					defer wg.Done()
+					for j := 0; j < per; j++ {
+						i := w*per + j
+						cts[i], errs[i] = pk.Encrypt(lib.NewRng("c20/conc/enc", round*1000+pi*100+i), pol, []byte{byte(i), 0xAB})
+					}
+				}()
+			}
+			wg.Wait()
+			lib.CountN("concurrent:encryptions", workers*per)
+			var reported int32
+			for w := 0; w < workers; w++ {
+				w := w
+				wg.Add(1)
+				go func() {
+					defer wg.Done()
+					for j := 0; j < per; j++ {
+						i := w*per + j
+						if errs[i] != nil {
+							if atomic.CompareAndSwapInt32(&reported, 0, 1) {
+								lib.Violation("C20:encrypt-error:PublicKey.Encrypt:concurrent", cmon, lib.D("policy", ptxt, "err", errs[i]))
+							}
+							continue
+						}
+						pt, err := kGood.Decrypt(cts[i])
+						_, errB := kBad.Decrypt(cts[i])
+						okS := good.CouldDecrypt(cts[i])
+						if (err != nil || !lib.Eq(pt, []byte{byte(i), 0xAB}) || errB == nil || !okS) && atomic.CompareAndSwapInt32(&reported, 0, 1) {
+							lib.Violation("C20:rejects-satisfied:AttributeKey.Decrypt:ciphertext-made-while-other-goroutines-encrypt", cmon,
+								lib.D("policy", ptxt, "goroutines", workers, "err", err, "unsatisfying_key_decrypts", errB == nil, "could_decrypt", okS, "ct", cts[i]))
+						}
+					}
+				}()
+			}
+			wg.Wait()
+			lib.CountN("concurrent:decryptions", workers*per)
+			lib.CaseS("concurrent", ptxt, string(rune('0'+round)))
 		}
 	}
 }
